@@ -42,13 +42,29 @@ theorem C01_jira_total (cfg : Document.Cfg) (hc : Config.jira = some cfg) (gas :
     (hg : gasBound cfg.block (docBuf (normalize (.str t))) ≤ gas) : ∃ out, Config.renderJira gas t = some out :=
   Mistletoe.Props.C01.C01_jira_total cfg hc gas t hg
 
-/-- **Parse-and-render with the XWiki renderer returns a string for every text.**  `_partial`: the parser model does
-    not produce the two XWiki macro tokens (their `find` is not wired into `Inline.findOne`), so on texts in which a
-    macro pattern matches this is a statement about another parse than the code's; the renderer half
-    (`C01_contrib_render_exact`) covers trees with macro tokens. -/
-theorem C01_xwiki_total_partial (cfg : Document.Cfg) (hc : Config.xwiki = some cfg) (gas : Nat) (t : Str)
+/-- **Parse-and-render with the XWiki renderer returns a string for every text** (token lists regenerated from
+    /repo: the block list with `HtmlBlock`, the span list with `HtmlSpan`, `XWikiBlockMacroStart` and
+    `XWikiBlockMacroEnd`).  The parse model runs the `find` of the two macro classes (`Model/InlineScanX.lean`,
+    wired into `Inline.findOne` / `Inline.build`: `parse_group = 1`, `parse_inner = False`, `content = match.group(1)`),
+    so `{{name …}}` lines become `XWikiBlockMacroStart` / `XWikiBlockMacroEnd` tokens as in the code, and the
+    renderer model renders them (`render_x_wiki_block_macro_start` / `_end`). -/
+theorem C01_xwiki_total (cfg : Document.Cfg) (hc : Config.xwiki = some cfg) (gas : Nat) (t : Str)
     (hg : gasBound cfg.block (docBuf (normalize (.str t))) ≤ gas) : ∃ out, Config.renderXWiki gas t = some out :=
   Mistletoe.Props.C01.C01_xwiki_total cfg hc gas t hg
+
+/-- a macro block, kernel-evaluated end to end: the opening and the closing line become the two macro tokens
+    (each keeps its own line), the soft line break after the body becomes a space — byte for byte what
+    `XWiki20Renderer().render(Document(text))` returns -/
+example : Config.renderXWiki 50 "{{info}}\nsome macro body\n{{/info}}\n".toList =
+    some "{{info}}\nsome macro body \n{{/info}}\n\n".toList := by decide +kernel
+
+/-- the parsed paragraph of that text: `XWikiBlockMacroStart`, `RawText`, soft `LineBreak`, `XWikiBlockMacroEnd` -/
+example : (match Config.xwiki with
+    | some cfg => (match Document.parse cfg 50 "{{info}}\nsome macro body\n{{/info}}\n".toList with
+      | .ok ⟨[.paragraph [.xwikiMacroStart a, .rawText b, .lineBreak _ true, .xwikiMacroEnd c] _], _⟩ =>
+          a == "{{info}}".toList && b == "some macro body".toList && c == "{{/info}}".toList
+      | _ => false)
+    | none => false) = true := by decide +kernel
 
 /-- **The Jira and XWiki renderers raise on a tree exactly when it is outside `docOk`** — in particular they return a
     string on empty quotes, empty list items, lists without items and tables without header (the crashes of the
